@@ -345,7 +345,7 @@ theorem expired_rejected (w : World) (k : Nat) (sig : Bool) (u sid iat e ct a s 
   omega
 
 /-- A token for an account that does not exist (never created, or deleted) is never accepted. -/
-theorem unknown_account_rejected (w : World) (k : Nat) (sig : Bool) (u sid iat : Nat)
+theorem absent_account_rejected (w : World) (k : Nat) (sig : Bool) (u sid iat : Nat)
     (exp : Option Nat) (ct a s : Nat) (h : w.accounts u = none) :
     validate w ⟨k, sig, .uat u sid iat exp⟩ ct ≠ .ident a s := by
   intro hv
@@ -477,7 +477,7 @@ theorem revoked_session_never_accepted (w : World) (u sid : Nat) (hd : Dead w u 
     validate (run w ops) ⟨k, sig, .uat u sid iat exp⟩ ct ≠ .ident a s := by
   obtain ⟨_, hdead⟩ := run_dead hd ops
   rcases hdead with hn | ⟨acc, v, hacc, hs, hv⟩
-  · exact unknown_account_rejected _ k sig u sid iat exp ct a s hn
+  · exact absent_account_rejected _ k sig u sid iat exp ct a s hn
   · have : v = ⟨.revokedAt, v.cred⟩ := by cases v; simp at hv; simp [hv]
     rw [this] at hs
     exact revoked_session_rejected _ k sig u sid iat exp ct a s acc v.cred hu hacc hs
